@@ -17,11 +17,14 @@ THEOREMS = ["binAssign_var_correct", "binAssign_fixed_correct", "assign_eq_binOf
             "sanitize_rejects_outside_fails", "sanitizeWith_sim", "groupCells_perm", "groupCells_sorted",
             "countAt_groupCells", "totalCount_groupCells", "mem_groupCells_keys", "countAt_groupFirst",
             "pixels_count_once", "pixels_reflect_upper", "tableOK_of_valid"]
-LEVELS = {"records_top": "top", "records_unit": "unit", "pixels_top": "top", "pixels_unit": "unit",
+LEVELS = {"records_top": "top", "records_atlength": "top", "records_unit": "unit", "pixels_top": "top", "pixels_unit": "unit",
           "aggregate_unit": "unit", "cli_pairs": "top", "cli_load": "top", "cli_tabix": "top", "constants": "unit"}
 DESCRIBE = {
     "records_top": "sanitize_records(bins, schema=pairs|bg2, ...)(chunk) then aggregate_records()(…), chunks merged, vs Lean "
                    "L0 `specCounts` (binOf, one unit per retained record): ok/rejected status, number of retained rows, pixel table",
+    "records_atlength": "the comparison of records_top on inputs that contain a record exactly at its chromosome's length (the signature "
+                        "of known finding D13); under its own name so that the expected known-finding cases never compete with "
+                        "anything else for the runner's per-check mismatch budget",
     "records_unit": "exact output frame of sanitize_records per chunk (bin ids per record, swapped sided fields, error class) vs "
                     "Lean L1 `sanitizeRecords` (model of the code as it is)",
     "pixels_top": "sanitize_pixels(bins, ...)(chunk) aggregated vs Lean L0 `specPixels` (shifted, oriented id pair)",
@@ -237,6 +240,24 @@ def _records_top(case):
         first_d13["n_batches_with_known_finding"] = nd13
         return first_d13
     return {"stats": {"batches": len(batches), "retained": nret, "rejected": nrej}}
+
+
+def _records_atlength(case):
+    """records_top under each listed tril_action; a disagreement that is not the known finding wins"""
+    known = None
+    stats = {}
+    for tril in case["trils"]:
+        r = _records_top(dict(case, opts=dict(case["opts"], tril=tril)))
+        if r and r.get("mismatch"):
+            d = r.get("d13", {})
+            if not (d.get("at_len") and d.get("agrees_current")):
+                return r
+            r["tril"] = tril
+            known = known or r
+        elif r:
+            for k, v in r["stats"].items():
+                stats[k] = stats.get(k, 0) + v
+    return known or {"stats": stats}
 
 
 def _records_unit(case):
@@ -600,7 +621,7 @@ def _cli_tabix(case):
                 os.unlink(p)
 
 
-CHECKS = {"records_top": _records_top, "records_unit": _records_unit, "pixels_top": _pixels_top, "pixels_unit": _pixels_unit,
+CHECKS = {"records_top": _records_top, "records_atlength": _records_atlength, "records_unit": _records_unit, "pixels_top": _pixels_top, "pixels_unit": _pixels_unit,
           "aggregate_unit": _aggregate_unit, "cli_pairs": _cli_pairs, "cli_load": _cli_load, "cli_tabix": _cli_tabix,
           "constants": _constants}
 
@@ -722,7 +743,8 @@ def cases(tier, rng):
         # D24 (fixed b100e7d): integer chromosome ids + reflect + a lower-triangle record, nothing dropped
         yield nm, {"bins": t_3, "opts": {"tril": "reflect", "decode": False}, "kind": "corpus-D24",
                    "batches": [[[[2, 0, 1, 0, [], [], [3]]]], [[[2, 1, 1, 1, [], [], [4]], [0, 2, 2, 7, [], [], [1]], [1, 3, 1, 0, [], [], [2]]]]]}
-        late.append((nm, {"bins": t_uni, "opts": {"tril": "reflect"}, "batches": [[[[0, 1, 0, 4, [], [], []]]], [[[1, 3, 1, 3, [], [], []]]],
+        late.append(("records_atlength" if nm == "records_top" else nm,
+                     {"bins": t_uni, "opts": {"tril": "reflect"}, "trils": ["reflect"], "batches": [[[[0, 1, 0, 4, [], [], []]]], [[[1, 3, 1, 3, [], [], []]]],
                                                                                   [[[0, 4, 1, 0, [], [], []]]]], "kind": "corpus-D13"}))
     # ---- exhaustive single records ---------------------------------------------------------------
     tabs = tables(tier, rng)
@@ -740,12 +762,14 @@ def cases(tier, rng):
                     case = {"bins": bins, "opts": opts, "batches": batches, "kind": f"single:{label}"}
                     yield "records_top", case
                     yield "records_unit", case
-                # every pair with an anchor exactly at its chromosome's length: the signature of D13
-                batches = [[[[c1, p1, c2, p2, [], [], [1, 0]]]] for (c1, p1) in anc for (c2, p2) in anc
-                           if at_len((c1, p1)) or at_len((c2, p2))]
-                case = {"bins": bins, "opts": opts, "batches": batches, "kind": f"single-atlength:{label}"}
-                late.append(("records_top", case))
-                late.append(("records_unit", case))
+            # every pair with an anchor exactly at its chromosome's length: the signature of D13
+            batches = [[[[c1, p1, c2, p2, [], [], [1, 0]]]] for (c1, p1) in anc for (c2, p2) in anc
+                       if at_len((c1, p1)) or at_len((c2, p2))]
+            late.append(("records_atlength", {"bins": bins, "opts": {"one_based": one_based, "sort": False}, "trils": TRILS,
+                                              "batches": batches, "kind": f"single-atlength:{label}"}))
+            for tril in TRILS:
+                late.append(("records_unit", {"bins": bins, "opts": {"one_based": one_based, "tril": tril, "sort": False},
+                                              "batches": batches, "kind": f"single-atlength:{label}"}))
     # ---- seeded multisets ---------------------------------------------------------------------------
     nmulti = 260 if thorough else 70
     for k in range(nmulti):
@@ -883,7 +907,7 @@ def distribution(name, case):
     k = case.get("kind")
     if k:
         yield f"{name}.{k.split(':')[0]}"
-    if "opts" in case:
+    if "opts" in case and "trils" not in case:
         yield f"{name}.tril={case['opts'].get('tril')}"
 
 
